@@ -35,7 +35,10 @@ func init() {
 			pre = &type3.ClientState{}
 			cache.m[hex.EncodeToString(clientKey)] = pre
 		}
-		err := type3.NewRateLimitedAttester(cache).VerifyRequest(req, blind, clientKey, []byte("anon"))
+		// one attester object for the whole run (whatever it keeps besides the cache outlives the operation);
+		// only the cache behind it is this operation's own
+		c06cache.cur = cache
+		err := c06att.VerifyRequest(req, blind, clientKey, []byte("anon"))
 		verdict := "accept"
 		if err != nil {
 			verdict = "reject"
@@ -47,6 +50,15 @@ func init() {
 		return fmt.Sprintf("%s puts=%d clients=%d replaced=%d", verdict, len(cache.puts), len(cache.m), changed)
 	}
 }
+
+// switchCache forwards to the cache of the current operation.
+type switchCache struct{ cur *memCache }
+
+func (s *switchCache) Get(id string) (*type3.ClientState, bool) { return s.cur.Get(id) }
+func (s *switchCache) Put(id string, st *type3.ClientState)     { s.cur.Put(id, st) }
+
+var c06cache = &switchCache{}
+var c06att = type3.NewRateLimitedAttester(c06cache)
 
 // c06Conj is the conjunction of C06 evaluated outside the attester: standard-library ECDSA over
 // the request's exact contents, and the request key recomputed from client key and blind.
